@@ -220,14 +220,41 @@ record and `normalize` has not appended a synthesised OPT record after it. -/
 def tsigAtTruncate (req : Option Opt) (r : Resp) : Bool :=
   r.tsig && !(req.isSome && r.opt.isNone)
 
+/-- `Len()` of the message left by `cut` with OPT record `opt`. -/
+def finalLen (r : Resp) (c : Cut) (opt : Option Opt) : Nat :=
+  if c.tc then r.q + sum (r.ns2.take c.kn) + sum (r.extra2.take c.ke) + optLen? opt
+  else r.q + sum (r.ans.take c.ka) + sum (r.ns.take c.kn) + sum (r.extra.take c.ke) + optLen? opt
+
+/-- The end of the repaired `truncate`: when nothing but the OPT record is left
+(`len(Answer)+len(Ns)+len(Extra) == 1`), the record has options and `resp.Len()` still exceeds
+`size`, the options are removed (`opt.Option = nil`). -/
+def dropOpts (size : Nat) (r : Resp) (c : Cut) : Option Opt → Option Opt
+  | none => none
+  | some o =>
+    if !o.opts.isEmpty && c.ka == 0 && c.kn == 0 && c.ke == 0
+        && decide (finalLen r c (some o) > size) then
+      some { o with opts := [] }
+    else some o
+
+/-- The `truncate(resp, maxDNSSize(...))` call of `normalize`: what is kept. -/
+def truncCut (legacy : Bool) (t : Transport) (cfgMax : Nat) (req : Option Opt) (r : Resp) : Cut :=
+  truncate (tsigAtTruncate req r) (maxDNSSize t.isUdp (advertised req) (t.cap cfgMax)) r
+    (baseOpt legacy req r)
+
+/-- The OPT record after that call.  The pinned tree (`legacy`) has no option removal. -/
+def truncOpt (legacy : Bool) (t : Transport) (cfgMax : Nat) (req : Option Opt) (r : Resp) :
+    Option Opt :=
+  if legacy then baseOpt legacy req r
+  else dropOpts (maxDNSSize t.isUdp (advertised req) (t.cap cfgMax)) r (truncCut legacy t cfgMax req r)
+    (baseOpt legacy req r)
+
 /-- `normalize(network, proto, req, resp, maxMsgSize)`. -/
 def normalizeG (legacy : Bool) (t : Transport) (cfgMax : Nat) (req : Option Opt) (r : Resp)
     (draw : Nat) : Norm :=
-  { cut := truncate (tsigAtTruncate req r) (maxDNSSize t.isUdp (advertised req) (t.cap cfgMax)) r
-      (baseOpt legacy req r),
-    opt := padStep t req (baseOpt legacy req r) draw }
+  { cut := truncCut legacy t cfgMax req r,
+    opt := padStep t req (truncOpt legacy t cfgMax req r) draw }
 
-/-- The code as repaired by the `fix:` commit. -/
+/-- The code as repaired by the `fix:` commits. -/
 def normalize := normalizeG false
 
 /-- What leaves the server. -/
@@ -241,11 +268,6 @@ structure Out where
   /-- `false` when `packWithPrefix` refused the message (nothing is sent) -/
   emitted : Bool
   deriving DecidableEq, Repr
-
-/-- `Len()` of the message left by `cut` with OPT record `opt`. -/
-def finalLen (r : Resp) (c : Cut) (opt : Option Opt) : Nat :=
-  if c.tc then r.q + sum (r.ns2.take c.kn) + sum (r.extra2.take c.ke) + optLen? opt
-  else r.q + sum (r.ans.take c.ka) + sum (r.ns.take c.kn) + sum (r.extra.take c.ke) + optLen? opt
 
 /-- `Msg.Pack` overwrites the extended-rcode byte of the OPT record with `Msg.Rcode >> 4`. -/
 def packOpt (hi : Nat) : Option Opt → Option Opt
@@ -359,5 +381,37 @@ def respondG (legacy : Bool) (t : Transport) (cfgMax idleMs : Nat) (hdr : QHdr) 
     | _ => none
 
 def respond := respondG false
+
+/-! ## The DNSCrypt envelope (`ameshkov/dnscrypt` v2.3.0) around `dnsCryptHandler`
+
+What the library does with the message `dnsCryptHandler.ServeDNS` hands to `rw.WriteMsg`: a
+second truncation (`normalize` of the library), ISO 7816-4 padding, encryption, and on TCP a
+2-byte length prefix. -/
+
+/-- `Server.serveDNS`: the queries that reach the handler at all (anything else gets no answer). -/
+def dcAccepts (h : QHdr) : Bool := h.nq == 1 && !h.response
+
+/-- The size the library truncates to: `dnsSize(proto, req) - 64`. -/
+def dcSize (isUdp : Bool) (adv : Nat) : Nat :=
+  (if isUdp then max adv minMsgSize else maxMsgSize) - 64
+
+/-- `pad`: the next multiple of 64 above `len + 1`, at least `minUDPQuestionSize` = 256. -/
+def dcPadded (len : Nat) : Nat := max 256 (len + 1 + (64 - (len + 1) % 64))
+
+/-- Encrypted response: resolver magic (8) + nonce (24) + Poly1305 tag (16) + padded message. -/
+def dcEncLen (len : Nat) : Nat := 48 + dcPadded len
+
+/-- The length prefix `writePrefixed` computes on TCP: `uint16(len(b))`. -/
+def dcPrefix (len : Nat) : Nat := dcEncLen len % 65536
+
+/-- The TCP frame is well-formed: the prefix equals the number of bytes that follow. -/
+def dcFrameOk (len : Nat) : Bool := decide (dcEncLen len < 65536)
+
+/-- The library's second truncation of a message described by `r1` (the message `normalize` of
+AdGuard DNS left, as lengths).  UDP: `Truncate`, then answers removed when TC is set — the same
+function as AdGuard's `truncate`.  TCP: `Truncate` only, answers stay. -/
+def dcTruncate (isUdp : Bool) (exempt : Bool) (adv : Nat) (r1 : Resp) (opt : Option Opt) : Cut :=
+  if isUdp then truncate exempt (dcSize true adv) r1 opt
+  else msgTruncate exempt (dcSize false adv) r1 opt
 
 end Agd.Normalize
